@@ -148,4 +148,64 @@ example : let s := mpz_lcm ex6 1 1 2 3; s.ok = true ∧ view (s.h 1) = ⟨3, 3, 
 -- negative: `MPZ_REALLOC (r, usize)` — the carry limb `rp[usize] = c` leaves the block
 example : (lcm_ 0 ex6 0 1 2 3).ok = false := by decide
 
+/-! ## mpz_gcd (mpz/gcd.c) -/
+
+/-- mpz_gcd (mpz/gcd.c), the arms before TMP_MARK (gcd.c:44-77: u = 0, v = 0, u of one limb, v of one limb), every allocation and
+    every alias pattern (g may be u and / or v): in the zero arms `SIZ (g)` is stored BEFORE `MPZ_REALLOC (g, size)` — harmless,
+    because `_mpz_realloc` only clears a value that exceeds the NEW allocation —, the operand pointer fetched at gcd.c:39-41 is
+    still live at the MPN_COPY because g is then a different variable; the one-limb arms store `PTR (g)[0]` without any
+    reallocation (a block never has zero limbs) after the last read of the operands.  g ends well formed and equal to
+    gcd (|u|, |v|); nothing else is touched.
+    PARTIAL: the full statement is the same conclusion without `hsmall`; missing is the general arm gcd.c:79-155 (`gcdGeneral`:
+    TMP copies, mpn_gcd by contract, `MPZ_REALLOC (g, gsize)` against the re-shift with `cy_limb`) — run only, with the negative
+    variants below. -/
+theorem mpz_gcd_small_alloc_safe_partial (s : St) (g u v : Nat) (hs : s.ok = true)
+    (hg : OWF (s.h g)) (hu : OWF (s.h u)) (hv : OWF (s.h v))
+    (hsmall : (s.h u).size.natAbs ≤ 1 ∨ (s.h v).size.natAbs ≤ 1) :
+    ∃ m, Safe s (mpz_gcd s g u v) g m ∧
+      Mpz.toInt m = (Nat.gcd (Mpz.toInt (view (s.h u))).natAbs (Mpz.toInt (view (s.h v))).natAbs : Nat) := by
+  rw [toInt_natAbs, toInt_natAbs]
+  have ha : 1 ≤ (s.h g).buf.alloc := by have := hg.2.1; simpa [view] using this
+  have zeroWF : ∀ {x : Nat}, OWF (s.h x) →
+      Mpz.WF ⟨max (s.h g).buf.alloc (s.h x).size.natAbs, ((s.h x).size.natAbs : Nat), (view (s.h x)).d⟩ := by
+    intro x hx
+    refine ⟨Nat.le_trans ha (Nat.le_max_left _ _), ?_, ?_, hx.2.2.2.2.1, hx.2.2.2.2.2⟩
+    · simp only [Int.natAbs_natCast]; exact Nat.le_max_right _ _
+    · simp only [Int.natAbs_natCast]; exact view_d_length hx
+  by_cases hu0 : (s.h u).size.natAbs = 0
+  · have R : Refines s (mpz_gcd s g u v) g
+        ⟨max (s.h g).buf.alloc (s.h v).size.natAbs, ((s.h v).size.natAbs : Nat), (view (s.h v)).d⟩ := by
+      unfold mpz_gcd gcd_
+      simp only [St.ABSIZ, hu0, beq_self_eq_true, if_true]
+      exact gcdZero_refines s g v hs hg hv
+    refine ⟨_, R.safe (zeroWF hv), ?_⟩
+    have hd : (view (s.h u)).d = [] := by simp [view, hu0]
+    rw [hd]; simp [Mpz.toInt, val]
+  · have hune : ((s.h u).size.natAbs == 0) = false := by simpa using hu0
+    by_cases hv0 : (s.h v).size.natAbs = 0
+    · have R : Refines s (mpz_gcd s g u v) g
+          ⟨max (s.h g).buf.alloc (s.h u).size.natAbs, ((s.h u).size.natAbs : Nat), (view (s.h u)).d⟩ := by
+        unfold mpz_gcd gcd_
+        simp only [St.ABSIZ, hune, hv0, beq_self_eq_true, if_true, Bool.false_eq_true, if_false]
+        exact gcdZero_refines s g u hs hg hu
+      refine ⟨_, R.safe (zeroWF hu), ?_⟩
+      have hd : (view (s.h v)).d = [] := by simp [view, hv0]
+      rw [hd]; simp [Mpz.toInt, val]
+    · obtain ⟨R, W⟩ := gcdOne_refines s g u v hs hg hu hv (by omega) (by omega) (by omega)
+      exact ⟨_, R.safe W, by simp [Mpz.toInt, val]⟩
+
+-- gcd (B^2 - 1, 6) = 3 into variable 0 and over v; gcd (0, v) copies; in place nothing is reallocated
+example : let s := mpz_gcd ex6 0 1 2; s.ok = true ∧ view (s.h 0) = ⟨1, 1, [3]⟩ := by decide
+example : let s := mpz_gcd ex6 2 1 2; s.ok = true ∧ view (s.h 2) = ⟨1, 1, [3]⟩ := by decide
+example : let s := mpz_gcd ex6 0 0 1; s.ok = true ∧ view (s.h 0) = ⟨2, 2, [B - 1, B - 1]⟩ := by decide
+/-- a heap for the general arm: 0 = destination (one limb), 1 = 3 * 2^127, 2 = 5 * 2^127 (two limbs each; gcd = 2^127) -/
+def ex7 : St := ⟨fun i => if i = 0 then ⟨0, 0, ⟨1, [junk]⟩⟩ else if i = 1 then ⟨2, 0, ⟨2, [0, 3 * 2 ^ 63]⟩⟩
+                 else ⟨2, 0, ⟨2, [0, 5 * 2 ^ 63]⟩⟩, true⟩
+-- general arm: one low zero limb and 63 zero bits stripped, gcd 1 re-shifted: two limbs, no carry limb
+example : let s := mpz_gcd ex7 0 1 2; s.ok = true ∧ view (s.h 0) = ⟨2, 2, [0, 2 ^ 63]⟩ := by decide +kernel
+example : let s := mpz_gcd ex7 1 1 2; s.ok = true ∧ view (s.h 1) = ⟨2, 2, [0, 2 ^ 63]⟩ := by decide +kernel
+-- negative: `MPZ_REALLOC (g, gsize - 1)`; and storing `tp[vsize] = cy_limb` unconditionally with the exact request
+example : (gcd_ 1 false ex7 0 1 2).ok = false := by decide +kernel
+example : (gcd_ 0 true ex7 0 1 2).ok = false := by decide +kernel
+
 end Mpir.AllocSafe5
